@@ -1,6 +1,7 @@
 #!/bin/sh
 # MANIFEST.setup_cmd: build the Lean library property by property (so that one broken module cannot block the
 # others) and the compiled model driver. Offline; Mathlib comes from the toolchain path.
+python3 "$(dirname "$0")/translate.py" || /venv/bin/python "$(dirname "$0")/translate.py"
 cd "$(dirname "$0")/../lean" || exit 1
 ok=0
 for f in PyGam/Props/C*.lean; do
